@@ -53,9 +53,12 @@ CLAIMS = {
          "C11_rejected_leaves_no_trace, C11_superseded, C11_store/C11_key (store refinement, injective keys); histories with "
          "rejected-then-accepted loads, two issuers with overlapping serials and near-miss probes compared with the model.",
          "Coq invariant proofs + store refinement + history correspondence", "DESIGN.md §3 C11", ""),
- "C16": ("Coq theorems C16_uniform / C16_meaning / C16_verify_never_unverified / C16_lenient_refresh / C16_default over a policy that "
-         "srcfacts regenerates from loadCRL and updateCrlEntry on every run; the 3x3x4x2 matrix (x fetch mode x strict) run on the real "
-         "validator plus the provision-time crl_urls path.",
+ "C16": ("Coq theorems C16_uniform / C16_meaning / C16_verify_never_unverified / C16_verify_after_reconfiguration (for every sequence of "
+         "earlier deployments, each with its own configuration and history, nothing unverified is in force after a restart under verify) / "
+         "C16_lenient_refresh / C16_default over a policy and an adoption check that srcfacts regenerates from loadCRL, updateCrlEntry and "
+         "addNewEmptyEntry on every run; the 3x3x4x2 matrix (x fetch mode x strict) run on the real validator, the provision-time crl_urls "
+         "path incl. the unset mode, and two-deployment histories (mode or trusted signer changed across the restart) compared with the model "
+         "and with a fresh work_dir.",
          "Coq proof over source-generated policy + exhaustive matrix correspondence", "DESIGN.md §3 C16", ""),
  "C12": ("Coq theorems C12_crash_consistent (for every atomic file-system action of an intake — download, each staging write, acceptance, "
          "each of the five swap steps — the image after restart holds the old complete list, nothing, or the new complete accepted list, and "
